@@ -1738,7 +1738,7 @@ func (w *simWorld) notePrefixLimit(p *simPeer, fam wFamily) {
 	}
 	if n > p.cfg.PrefixLimit && !p.limitHit {
 		p.limitHit = true
-		if !p.stalled {
+		if !p.stalled && !p.ending {
 			p.limitTrips++
 		} else {
 			p.limitMaybe++ // a short stall may end before the write of the NOTIFICATION times out
